@@ -174,6 +174,9 @@ func TestCheck(t *testing.T) {
 	r := vkit.Start("C19")
 	defer r.Finish(t)
 	st := newState()
+	if r.ReplayCold() {
+		return
+	}
 	if r.Replay != "" {
 		var c Case
 		if err := r.LoadReplay(&c); err != nil {
@@ -225,6 +228,8 @@ func TestCheck(t *testing.T) {
 			}
 		}
 	})
+
+	r.ColdPhase(coldFirst)
 
 	if r.Thorough() {
 		// a long run from one goroutine: 80 million draws, duplicates found exactly by sorting the 128-bit values
